@@ -31,7 +31,7 @@ class ResWorld(World):
     name = "W-res"
 
     def __init__(self, variant: str = "full", low_energy: bool = True, pairs: bool = True, prices: bool = False,
-                 mechs=("quiet", "small", "quiet"), idle_timeout: int = 120, gas: bool = False, name: str = "", atomic_pairs: bool = False, v0_energy=None, split_base: bool = False, throttle: float = 1.0):
+                 mechs=("quiet", "small", "quiet"), idle_timeout: int = 120, gas: bool = False, name: str = "", atomic_pairs: bool = False, v0_energy=None, split_base: bool = False, throttle: float = 1.0, slots: int = 1):
         super().__init__()
         self.pairs = pairs
         if name:
@@ -43,10 +43,11 @@ class ResWorld(World):
         rn = HaversineRoadNetwork(sim_h3_resolution=15)
         self.rn = rn
         env = self.env
-        s0 = mk_station(env, rn, "s0", S["N1"], {"DCFC": 1, "LEVEL_2": 1, "GAS_PUMP": 1} if gas else {"DCFC": 1, "LEVEL_2": 1})
+        s0 = mk_station(env, rn, "s0", S["N1"], {"DCFC": slots, "LEVEL_2": 1, "GAS_PUMP": 1} if gas else {"DCFC": slots, "LEVEL_2": 1})
         s1 = mk_station(env, rn, "s1", S["F1"], {"DCFC": 1})
-        bs = mk_station(env, rn, "bs", S["X1"], {"LEVEL_2": 1})
-        b0 = mk_base(rn, "b0", S["X1"], stalls=1, station_id="bs")
+        bs = mk_station(env, rn, "bs", S["X1"], {"LEVEL_2": slots})
+        # slots > 1: resources shared by several holders at once (a second release is not stopped by the count guard)
+        b0 = mk_base(rn, "b0", S["X1"], stalls=slots, station_id="bs")
         # split_base: base b1 (on M1) is served by station s0, which stands on another cell (N1) -- the input files allow it
         b1 = mk_base(rn, "b1", S["M1"], stalls=1, station_id="s0" if split_base else None)
         v0 = mk_vehicle(env, rn, "v0", S["A"], mechs[0], soc=0.5, energy=0.10 if (low_energy and mechs[0] != "ice") else None)
